@@ -390,6 +390,11 @@ func implIsEmpty(raw json.RawMessage) (any, error) {
 	return out, nil
 }
 
+// fracPairs: (pod-deletion-cost, priority) pairs whose eviction cost 1 + dc/2^27 + prio/2^25 is decided by the fractional
+// part of dc/2^27: +0.255, +2^-27, +3*2^-27, exactly 0, +2^-27, -0.0098, +0.255 (negative cost), -0.49
+var fracPairs = [][2]int64{{100000000, -50000000}, {1, -33554432}, {134217727, -67108863}, {67108864, -50331648}, {67108865, -50331648},
+	{200000000, -83886080}, {-100000000, 0}, {-200000000, 0}, {33554433, -41943040}, {100663297, -58720256}}
+
 func genIsEmpty(r *rand.Rand, t core.Tier) any {
 	n := r.IntN(5)
 	in := EmptyIn{Pods: []EmptyPod{}}
@@ -410,6 +415,14 @@ func genIsEmpty(r *rand.Rand, t core.Tier) any {
 		if r.Float64() < 0.6 {
 			v := pick(r, int32(-33554432), -33554431, -33554433, 0, 1, -1, -2147483648, 1000000000, -67108864, -369098752, 301989888, 301989889, int32(r.IntN(2000))-1000)
 			p.Priority = &v
+		}
+		if r.Float64() < 0.25 {
+			// a deletion cost that is NOT a multiple of 2^27 together with a very negative priority: the FRACTION of
+			// deletionCost/2^27 decides the sign of the eviction cost
+			fp := pick(r, fracPairs...)
+			s := strconv.FormatInt(fp[0], 10)
+			pr := int32(fp[1])
+			p.DelCostRaw, p.DelCost, p.Priority = &s, &fp[0], &pr
 		}
 		in.Pods = append(in.Pods, p)
 	}
